@@ -63,6 +63,19 @@ Definition rename (r : result) (new : ident) : result :=
     (match re r with Some e => Some (substE (ren inexpr new) e) | None => None end)
     [].
 
+(* compile_assign takes the renaming shortcut only when the value has temporaries and IS one of them
+   (`any(result.expr is v for v in result.temp_variables)`) or there is no value at all; a larger expression
+   that merely mentions a temporary -- the BoolOp of (and (if ...) x) -- is assigned the ordinary way *)
+Definition plain_assign (r : result) : bool :=
+  match rt r with
+  | [] => true
+  | _ => match re r with
+         | None => false
+         | Some (PName x) => negb (existsb (ident_eqb x) (map fst (filter snd (rt r))))
+         | Some _ => true
+         end
+  end.
+
 (* ---- and / or ---- *)
 Definition mkbool (isand : bool) (first : pexpr) (rest : list pexpr) : pexpr :=
   match rest with [] => first | _ => PBoolOp isand (first :: rest) end.
@@ -122,16 +135,14 @@ Fixpoint compile (e : hexpr) (c : cst) {struct e} : result * cst :=
   | HDo es => branch es rempty None c
   | HSetv n e =>
       let '(r, c1) := compile e c in
-      match rt r with
-      | [] => (R (rs r ++ [SAssign (U n) (force r)]) None [], c1)
-      | _ => (R (rs (rename r (U n))) None [], mark c1)
-      end
+      if plain_assign r
+      then (R (rs r ++ [SAssign (U n) (force r)]) None [], c1)
+      else (R (rs (rename r (U n))) None [], mark c1)
   | HSetx n e =>
       let '(r, c1) := compile e c in
-      match rt r with
-      | [] => (R (rs r) (Some (PNamed (U n) (force r))) [], c1)
-      | _ => (rename r (U n), mark c1)
-      end
+      if plain_assign r
+      then (R (rs r) (Some (PNamed (U n) (force r))) [], c1)
+      else (rename r (U n), mark c1)
   | HNot e =>
       let '(r, c1) := compile e c in (R (rs r) (Some (PNot (force r))) [], c1)
   | HBool isand es =>
